@@ -2505,7 +2505,7 @@ class FGD:
         for visgroup in list(self.auto_visgroups.values()):
             if not visgroup.parent:
                 visgroup.parent = 'Auto'
-            elif visgroup.parent.casefold() not in self.auto_visgroups:
+            elif visgroup.parent.casefold() != 'auto' and visgroup.parent.casefold() not in self.auto_visgroups:
                 # This is an "orphan" visgroup, not linked back to Auto.
                 # Connect it back there, by generating the parent.
                 parent_group = self.auto_visgroups[visgroup.parent.casefold()] = AutoVisgroup(visgroup.parent, 'Auto')
